@@ -21,6 +21,8 @@ pub struct HtmlFilterBodyAction {
     last_buffer: Vec<u8>,
     // Raw text element (script, style, ...) whose content last_buffer starts with
     last_buffer_raw_tag: String,
+    // Set when the body turned out not to be valid UTF-8: it cannot be parsed and is returned as it is
+    in_error: bool,
 }
 
 lazy_static! {
@@ -77,18 +79,35 @@ impl HtmlFilterBodyAction {
             leave: None,
             last_buffer: Vec::new(),
             last_buffer_raw_tag: String::new(),
+            in_error: false,
             current_buffer: None,
             visitor,
         }
     }
 
     pub fn filter(&mut self, input: Vec<u8>, mut unit_trace: Option<&mut UnitTrace>) -> Result<Vec<u8>> {
+        if self.in_error {
+            return Ok(input);
+        }
+
         let mut data = self.last_buffer.clone();
         data.extend(input);
 
         // A chunk can end in the middle of a multi-byte character: keep the incomplete
         // sequence for the next call instead of failing to decode the last token
         let incomplete_char = data.split_off(complete_utf8_len(&data));
+
+        // A body which is not UTF-8 cannot be filtered: give back everything which is held, in stream
+        // order, and let the rest of the body pass through (an error here would drop what is held)
+        if std::str::from_utf8(&data).is_err() {
+            log::error!("body is not valid utf-8, html filtering is disabled for this response");
+
+            self.in_error = true;
+            self.last_buffer = data;
+            self.last_buffer.extend(incomplete_char);
+
+            return Ok(self.end());
+        }
 
         // The content of a script, style, ... element is not markup: when the previous chunk ended
         // inside such an element, what has been kept of it must be read as raw text again
@@ -200,20 +219,20 @@ impl HtmlFilterBodyAction {
     pub fn end(&mut self) -> Vec<u8> {
         // Buffered elements come first, the outermost one first, then what was kept of the last chunk
         let mut buffers = Vec::new();
-        let mut buffer = self.current_buffer.as_ref();
+        let mut buffer = self.current_buffer.take();
 
         while let Some(link) = buffer {
-            buffers.push(link.buffer.as_bytes());
-            buffer = link.previous.as_ref();
+            buffers.push(link.buffer);
+            buffer = link.previous;
         }
 
         let mut to_return = Vec::new();
 
         for buffer in buffers.into_iter().rev() {
-            to_return.extend_from_slice(buffer);
+            to_return.extend_from_slice(buffer.as_bytes());
         }
 
-        to_return.extend_from_slice(self.last_buffer.as_slice());
+        to_return.extend(std::mem::take(&mut self.last_buffer));
 
         to_return
     }
